@@ -12,3 +12,10 @@ def jobs(tier="quick", seed=0):
     from . import c12_13
     j = Job("C04/patch-operand-forms-bounded", c12_13.operand_forms(tier, seed), kind="B", func="gtirb_rewriting.assembler.assembler:_Streamer._fixup_to_symbolic_operand/_mcexpr_to_symbolic_operand")
     yield j
+    # offset-keyed tables and symbolic expressions across split_byte_interval / join_byte_intervals (what prepare and the final layout do
+    # to every annotation): the table clauses of the interval kernels
+    from . import kernel_intervals
+    for j in kernel_intervals.jobs(tier, seed):
+        if "tables" in j.id:
+            j.id = "C04/" + j.id
+            yield j
